@@ -416,7 +416,7 @@ def _weight_cell_values(
         )
         new_vals = np.array([v * weights for v in val])
         period_values[field] = {
-            p: (v[0] if isinstance(value, (float, int)) else v)
+            p: (v[0] if np.array(value).ndim == 0 else v)
             for p, v in zip(subperiods, new_vals.T)
         }
     # return data reorganized by subperiods
